@@ -1094,6 +1094,9 @@ def main(listenip_v6, listenip_v4,
                 udp_listener.bind(lv6, lv4)
             bound = True
             used_ports.append(port)
+            # ports given with --listen differ from 'port': reserve the
+            # ports we really bound so the DNS listener gets another one
+            used_ports.extend((redirectport_v6, redirectport_v4))
             break
         except socket.error as e:
             if e.errno == errno.EADDRINUSE:
